@@ -6,14 +6,23 @@ HARNESS = ["h_osc.cpp"]
 DRIVER = "OSC"
 VARIANT = "asan"
 RULE = ("every generated message (C01's generator) and bundle (0..8 elements, messages and nested bundles) is built "
-        "into an exact-size heap block of EVERY capacity 0..needed+8, pre-filled with 0xAA, under AddressSanitizer "
-        "(red zones on both sides); return value and the whole block are compared. Non-trivial = capacity within "
-        "+-8 of the needed size; distinct by case text.")
+        "into an exact-size heap block, pre-filled with 0xAA, under AddressSanitizer (red zones on both sides), for "
+        "every capacity 0..needed+8 when the encoding is short (messages <= 60 bytes, bundles <= 80 bytes) and, for "
+        "longer ones, every capacity within +-8 of the needed size plus a 10-15% sample of the capacities below; all "
+        "three message constructors (rtosc_amessage, rtosc_vmessage, rtosc_avmessage) and the NULL probe. Return value "
+        "and the whole block are compared between model and implementation; the Spec oracle demands the return value, "
+        "an all-zero block on failure and the encoding at the front of the block on success. Non-trivial = capacity "
+        "within +-8 of the needed size; distinct by case text.")
 TRUSTED = ["AddressSanitizer (an out-of-bounds write aborts the harness, which shows up as CRASH)",
            "harness/h_osc.cpp: rtosc_bundle is called through a fixed-arity switch (0..8 elements)"]
-ASSUMPTIONS = ["element pointers handed to rtosc_bundle are followed by a zero word (the API's precondition for nested bundles)",
-               "ThreadLink::write/writeArray (cap = MaxMsg) and RtData::reply/broadcast (cap = 8192) call these constructors "
-               "with a fixed capacity; they are covered as instances of the capacity-generic theorem, not separately driven"]
+ASSUMPTIONS = ["a NESTED-BUNDLE element pointer handed to rtosc_bundle is followed by a zero word (the API's precondition: bundles "
+               "are not self-delimiting); message elements may be followed by anything or by the end of their block",
+               "ThreadLink::write/writeArray (cap = MaxMsg) and RtData::reply/broadcast (cap = 8192) are not modelled: "
+               "C02_fixed_capacity is the capacity-generic theorem read at a fixed capacity; the callers themselves are tied "
+               "only by the correspondence streams rt and tl (they must forward exactly what the model of the constructor "
+               "yields for that capacity, or nothing)",
+               "the address is not the exact string #bundle (not_bundle_addr); total encoded size < 2^32 and blob lengths < 2^31 "
+               "(the code's unsigned / int32 arithmetic is modelled without wrap-around in the encoder)"]
 TECHNIQUE = ("Coq proof about a write-chunk model of rtosc_amessage / rtosc_bundle with explicit capacity (out-of-bounds writes "
              "representable) + differential correspondence for every capacity 0..needed+8 under ASan")
 LEVEL_TEXT = ("Theorems in coq/Properties_C02.v: for every capacity, the model of rtosc_amessage never writes outside the "
@@ -138,9 +147,26 @@ def spec_check(case, impl):
         if cap < len(enc):
             exp = {"p": str(len(enc)), "r": "0", "b": hx(b"\0" * cap)}
         else:
-            exp = {"p": str(len(enc)), "r": str(len(enc)), "b": hx(enc + b"\xaa" * (cap - len(enc)))}
+            # the text demands the exact size and no write outside the block (ASan's business);
+            # what a constructor leaves BEHIND the encoding inside the block is the tie's business
+            exp = {"p": str(len(enc)), "r": str(len(enc)), "b[:n]": hx(enc)}
+            got["b[:n]"] = got.get("b", "")[:2 * len(enc)]
         # rtosc_vmessage and rtosc_avmessage into a dirty block of the same capacity
-        exp["V"] = "same"; exp["A"] = "same"
+        if cap < len(enc):
+            for k in ("V", "A"):
+                v = got.get(k, "")
+                if ":" in v and v.split(":", 1) == ["0", hx(b"\0" * cap)]:
+                    got[k] = "same"
+            exp["V"] = "same"; exp["A"] = "same"
+        else:
+            # same size and same encoding from the other two constructors
+            for k in ("V", "A"):
+                v = got.get(k, "")
+                if v not in ("same", "na") and ":" in v:
+                    rv, hb = v.split(":", 1)
+                    if rv == str(len(enc)) and hb[:2 * len(enc)] == hx(enc):
+                        got[k] = "same"
+            exp["V"] = "same"; exp["A"] = "same"
         for k in ("V", "A"):
             if got.get(k) == "na": got[k] = "same"
     else:
@@ -150,7 +176,8 @@ def spec_check(case, impl):
         if cap < len(enc):
             exp = {"r": "0", "b": hx(b"\0" * cap)}
         else:
-            exp = {"r": str(len(enc)), "b": hx(enc + b"\0" * (cap - len(enc)))}
+            exp = {"r": str(len(enc)), "b[:n]": hx(enc)}
+            got["b[:n]"] = got.get("b", "")[:2 * len(enc)]
     bad = [k for k in exp if got.get(k) != exp[k]]
     if impl.startswith("CRASH") or impl == "NOOUT":
         return "buffer-discipline: the implementation crashed (%s)" % impl[:300]
